@@ -43,7 +43,7 @@ PINS = {
             P + 'timing.py:*', P + 'context.py:Scope.__aexit__', P + 'context.py:Scope._await_children',
             'usim/_concurrent/basics.py:*', P + 'task.py:Task.__await__'],
 }
-SKIP = ('.__repr__', '.__str__', '.__enter__', '.__exit__')
+SKIP = ('.__repr__', '.__str__', 'Lock.__enter__', 'Lock.__exit__')
 
 
 def main():
